@@ -32,10 +32,10 @@ CHECKS = {
         'continuation), evaluated on every accepted input; model correspondence on the same inputs.',
    note=TB + ' The leaf/token bijection is checked through the gaps (the token stream itself is not observable from outside).'),
  'C12': dict(level='proof', technique='Lean 4 typed AST + schema predicate evaluated on implementation outcomes + model correspondence; LR soundness with value invariants proved',
-   text='Every returned tree is deserialised by a total function into the typed Lean AST (attribute sets and attribute types are then facts of the type; '
+   text='PROVED for all inputs and all options (C12_partial, C12_partial_single, C12_only_pipelines; 4000 lines, by induction over arbitrary LR runs with a sort-indexed value invariant, an abstract type-checker of the actions decided by the kernel on the regenerated grammar, the real tokenizer\'s type/value consistency sat_nextToken, and induction on nesting depth): every node of every tree the model returns satisfies Spec.schemaOK except two named pipeline shapes. Tie: every returned tree is deserialised by a total function into the typed Lean AST (attribute sets and attribute types are then facts of the type; '
         'anything else is reported ill-typed) and Spec.schemaOK (sequence grammars of list/pipeline, kinds allowed per position, operator/pipe/redirect '
         'vocabularies) is evaluated on every node, under all option combinations incl. proceedonerror.',
-   note=TB + ' The all-inputs schema theorem over the semantic actions (C12_partial) is under construction; exclusions are the listed known findings (D12, D19).'),
+   note=TB + ' C12_partial is about the model; it transfers to the implementation through the correspondence. Exclusions: BANG/timespec list_terminator (D12) and several leading ! in one pipeline.'),
 }
 
 CHECKS.update({
